@@ -258,7 +258,16 @@ def main(argv=None):
     return 0
 
 def _cleanup():
-    import shutil
+    import shutil, hashlib
+    try:
+        src = os.environ.get('VX_REPO_SRC', '/repo/src')
+        for i_, a_ in enumerate(sys.argv):
+            if a_ == '--repo-src' and i_ + 1 < len(sys.argv): src = sys.argv[i_ + 1]
+        root = os.path.dirname(os.path.abspath(src))
+        if root != '/repo':
+            shutil.rmtree(os.path.join(VERIF, 'build', 'driver_' + hashlib.sha1(root.encode()).hexdigest()[:10]), ignore_errors=True)
+    except Exception:
+        pass
     shutil.rmtree(os.path.join(VERIF, 'build', 'gen', 'p%d' % os.getpid()), ignore_errors=True)
 
 if __name__ == '__main__':
